@@ -272,6 +272,16 @@ Definition cell_proved (r : route) (w : bool) (dst : option tree) (sname dname :
   | RL => false
   end.
 
+(* which of the three is at the registered path, route by route: cp -rf keeps the tree as it is (links stay links), ln -snf and
+   os.symlink leave a link to the source, everything else (tar with -h, tarfile with dereference, shutil) the dereferenced tree *)
+Definition copy_exact (r : route) (w : bool) (t t' c : tree) : Prop :=
+  match r, w with
+  | RRsame, true => c = t
+  | RRsame, false | LL, false => c = Link SRC
+  | _, _ => c = t'
+  end.
+Ltac cx := first [reflexivity | match goal with |- copy_exact _ ?w _ _ _ => destruct w; reflexivity end].
+
 Definition copy_ok (w : bool) (t t' c : tree) : Prop :=
   c = t' \/ c = t \/ (c = Link SRC /\ w = false).
 
@@ -293,31 +303,31 @@ Theorem transfer_core fuel r w dst sname dname t t' fs' :
   deref fuel t [] t = Some t' ->
   cell_proved r w dst sname dname t = true ->
   transfer fuel r w dst sname dname t = Some fs' ->
-  exists c, lookup fs' (place dst sname dname) = Some c /\ copy_ok w t t' c.
+  exists c, lookup fs' (place dst sname dname) = Some c /\ copy_exact r w t t' c.
 Proof.
   intros Hd Hw Hw' Hde Hcell Htr. unfold transfer in Htr. rewrite Hde in Htr. injection Htr as <-.
   destruct r; simpl in Hcell.
   - (* LL *)
     unfold local_copy. destruct w; simpl in *.
-    + destruct (is_dir_t t); [discriminate|]. exists t'. split; [now apply extract_at_place | now left].
-    + exists (Link SRC). split; [|right; right; now split].
+    + destruct (is_dir_t t); [discriminate|]. exists t'. split; [now apply extract_at_place | cx].
+    + exists (Link SRC). split; [|cx].
       unfold symlink_at. now rewrite lookup_at_path, nothing_at_place.
   - (* LR *)
-    exists t'. split; [now apply extract_at_place | now left].
+    exists t'. split; [now apply extract_at_place | cx].
   - discriminate.
   - (* RRsame *)
     unfold same_loc. destruct w.
-    + exists t. split; [now apply extract_at_place | right; now left].
-    + exists (Link SRC). split; [|right; right; now split].
-      now rewrite lookup_at_path.
+    + exists t. split; [now apply extract_at_place | cx].
+    + exists (Link SRC). split; [|cx].
+      now rewrite lookup_at_path, nothing_at_place.
   - (* RRother *)
     unfold r2r, write_command. destruct (is_dir dst) eqn:Edir; simpl in Hcell.
     + unfold run_wcmd. rewrite <- (members_reroot t' [dname] [sname]). change ([dname] ++ [sname]) with [dname; sname].
       rewrite <- (is_dir_place dst sname dname Edir).
-      exists t'. split; [now apply extract_at_place | now left].
+      exists t'. split; [now apply extract_at_place | cx].
     + rewrite Hcell. unfold negb, run_wcmd. rewrite reroot_nil. apply String.eqb_eq in Hcell. subst dname.
       rewrite <- (not_dir_place dst sname sname Edir).
-      exists t'. split; [now apply extract_at_place | now left].
+      exists t'. split; [now apply extract_at_place | cx].
 Qed.
 
 (* other entries of an existing destination directory stay as they were *)
